@@ -17,7 +17,8 @@ EXPLANATION = (
     'file type; (STATE) attributes that feed state derived in Result.__init__ are not reassigned from outside the class '
     '(a reloaded object is re-derived from the stored attributes); (PURE) save does not write into the object; (CODEC) '
     'every encoding applied by the writer has its inverse in the reader. Element-wise equality after the round trip and '
-    'unicode coverage are NOT decided.')
+    'unicode coverage are NOT decided.'
+    ' Round 6: (EXH-read) every exit of _read_group comes after the loop over the group attributes.')
 ASSUMPTIONS = ['h5py / pickle semantics are not modelled', 'value types considered: str, ndarray, list, dict, None, iterable, scalar']
 FLOOR = 60
 RULE_FLOORS = {'TAB': 20, 'EXH-value': 6, 'OVERWRITE': 9}
